@@ -8,18 +8,18 @@ META = {
 }
 def obligations(tier):
     obs = []
-    for fam, nalpha, nops, firsts in ((0, 4, 3 if tier == "quick" else 4, [0, 1]),):   # timers family: > 120 s per scenario (measured), not registered
+    for fam, nalpha, nops, firsts in ((0, 4, 3 if tier == "quick" else 4, [0, 1]), (2, 5, 3 if tier == "quick" else 4, [0])):   # timers family: > 120 s per scenario (measured), not registered
         for first in firsts:
-            obs.append(Obl("loop-%s-N%d-first%02d" % ("jobs" if fam == 0 else "timers", nops, first), "c08_loop.c",
+            obs.append(Obl("loop-%s-N%d-first%02d" % ({0: "jobs", 1: "timers", 2: "alias"}[fam], nops, first), "c08_loop.c",
                        defs=["NOPS=%d" % nops, "FIRST=%d" % first, "FAMILY=%d" % fam, "NESTED_DEL"], paths=True,
                        unwind=3, n_entries=nalpha ** (nops - 1),
                        unwindset={"verif_realloc": 9, "_grow_bin_array": 4, "qb_loop_timer_add": 2, "verif_random": 9,
-                                  "qb_loop_run.6": 4, "qb_loop_run.7": 2, "qb_loop_run_level": 6, "timerlist_expire": 4,
+                                  "qb_loop_run.6": 4, "qb_loop_run.7": 4, "qb_loop_run_level": 6, "timerlist_expire": 4,
                                   "timerlist_heap_sift_down": 3, "timerlist_heap_sift_up": 2, "verif_mtx_find": 4,
                                   "harness_scenario": nops + 4, "get_more_jobs": 4, "qb_list_length": 8, "qb_loop_job_del": 8,
                                   "_get_empty_array_position_": 4, "expire_the_timers": 3},
                        timeout=120, mem_gb=4, object_bits=9,
-                       bounds={"family": "jobs" if fam == 0 else "timers", "history_length": nops, "first_op_index": first,
+                       bounds={"family": {0: "jobs", 1: "timers", 2: "alias"}[fam], "history_length": nops, "first_op_index": first,
                                "scenarios_in_obligation": nalpha ** (nops - 1)},
                        units=["lib/loop.c", "lib/loop_job.c", "lib/loop_timerlist.c", "include/tlist.h", "lib/array.c"],
                        stubs=["clock = harness variable", "fd source stub (stops after one iteration)", "seqenv.h", "pthread_seq.h", "cap_realloc.h", "random() symbolic, distinct"]))
